@@ -70,6 +70,11 @@ def prog_build(pr):
 def prog_plain(pr, env):
     """the same program on plain numbers"""
     if pr[0] == "leaf":
+        if pr[1].startswith("(FracLeaf"):
+            _h, n, d = pr[1].strip("()").split()
+            return Fraction(int(n), int(d))
+        if "FracLeaf" in pr[1]:
+            raise ValueError("float inside a composite leaf")
         return pyeval(sx_to_expr(loads(pr[1])), env)
     if pr[0] == "bin":
         return BINOPS[pr[1]](prog_plain(pr[2], env), prog_plain(pr[3], env))
@@ -80,6 +85,33 @@ def has_node(pr):
     if pr[0] == "leaf":
         return isinstance(sx_to_expr(loads(pr[1])), p.Expression)
     return any(has_node(q) for q in pr[2:])
+
+
+def known_fold_inside(pr):
+    """key of a known-bad fold occurring in a proper sub-program, if any"""
+    for sub in pr[2:] if pr[0] in ("bin", "un") else []:
+        k = classify(sub)
+        if k in ("floordiv-by-one", "mod-by-one", "zero-pow"):
+            return k
+        k = known_fold_inside(sub)
+        if k is not None:
+            return k
+    return None
+
+
+def has_float_leaf(pr):
+    if pr[0] == "leaf":
+        return "(Flt" in pr[1]
+    return any(has_float_leaf(q) for q in pr[2:])
+
+
+def exactify(pr):
+    """the same program with every float leaf replaced by the exact rational it denotes"""
+    if pr[0] == "leaf":
+        import re
+        return ["leaf", re.sub(r'\(Flt "[^"]*" (-?\d+) (\d+)\)',
+                               lambda m: f"(FracLeaf {m.group(1)} {m.group(2)})", pr[1])]
+    return pr[:2] + [exactify(q) for q in pr[2:]]
 
 
 def classify(pr):
@@ -135,8 +167,25 @@ def value_oracle(pr):
                 ok = bool(want == got)
         except Exception:
             ok = False
+        if not ok and has_float_leaf(pr):
+            # a float operand makes the plain computation a ROUNDED one (e.g. 5 // (0.0 + x/y) is
+            # off by one through rounding); judge against the same computation in exact rationals
+            try:
+                exact = prog_plain(exactify(pr), env)
+                if isinstance(got, float):
+                    ok = abs(float(exact) - got) <= 1e-9 * max(1.0, abs(float(exact)))
+                else:
+                    ok = (not isinstance(got, Exception)) and bool(exact == got)
+            except Exception:
+                ok = True      # exact version undefined (e.g. float-only operation): no verdict
         if not ok:
             shown = {k: v for k, v in env.items() if k in "xyz"}
+            # a known fold below may leave an == value of another TYPE (x // True -> x keeps a
+            # Fraction where the plain computation has an int) that only fails further up
+            inner = known_fold_inside(pr)
+            if inner is not None and classify(pr) not in ("floordiv-by-one", "mod-by-one", "zero-pow"):
+                return Failure(inner, f"(via a folded operand) tree {tree!r} evaluates to {got!r} "
+                               f"at {shown}, plain computation gives {want!r}", pr)
             return Failure(classify(pr), f"tree {tree!r} evaluates to {got!r} at {shown}, "
                            f"plain computation gives {want!r}", pr)
     return None
